@@ -42,6 +42,12 @@ Inductive op : Type :=
 | HandOver (cap : option nat) (bonds : list (tid * tid * nat))
   (* an environment consisting of the tensors `ts` is stored under `key` *)
 | Env (key : nat) (ts : list tid)
+  (* a boundary-contraction step returns: `bonds` = the observed TOTAL size (product
+     over all shared indices, fused or not) of the bond between every pair of tensors
+     of the new boundary layer; all of them must be within the cap, whether or not a
+     compression was logged for them (a bond the driver forgot to compress - e.g. the
+     one closing a periodic direction - is refused here) *)
+| Boundary (cap : option nat) (bonds : list (tid * tid * nat))
   (* a mutation of the network that is none of the above *)
 | Unknown (code : nat).
 
@@ -87,6 +93,7 @@ Definition mentions (o : op) : list tid :=
   | Compress a b _ _ _ _ _ => [a; b]
   | Project la lb pa pb _ _ _ _ _ => pa :: pb :: la ++ lb
   | HandOver _ bonds => flat_map (fun e => [fst (fst e); snd (fst e)]) bonds
+  | Boundary _ bonds => flat_map (fun e => [fst (fst e); snd (fst e)]) bonds
   | Env _ ts => ts
   | Unknown _ => []
   end.
@@ -116,6 +123,9 @@ Definition step (s : st) (o : op) : option st :=
                               end) (pend s)
       then Some {| dead := dead s; pend := [] |} else None
   | Env _ ts => if forallb (alive s) ts then Some s else None
+  | Boundary cap bonds =>
+      if forallb (alive s) (mentions o) && forallb (fun e => le_cap (snd e) cap) bonds
+      then Some s else None
   | Unknown _ => None
   end.
 
@@ -159,6 +169,7 @@ Definition op_cap_is (cap : option nat) (o : op) : bool :=
   | Compress _ _ chi _ _ _ _ => opt_eqb chi cap
   | Project _ _ _ _ chi _ _ _ _ => opt_eqb chi cap
   | HandOver c _ => opt_eqb c cap
+  | Boundary c _ => opt_eqb c cap
   | _ => true
   end.
 
